@@ -1,7 +1,10 @@
 package props
 
 import (
+	"bytes"
+	"encoding/json"
 	"fmt"
+	"net/http"
 	"os"
 	"strings"
 	"sync"
@@ -9,6 +12,7 @@ import (
 
 	"verifharness/client"
 	"verifharness/core"
+	"verifharness/inproc"
 	"verifharness/lnmodel"
 	"verifharness/menv"
 	"verifharness/refcrypto"
@@ -70,6 +74,7 @@ func c01Sequential(r *core.Run) {
 			}
 			r.Observe(kind+":"+reason, op+": "+detail)
 		}
+		var watch []*sim.Coin
 		s.AfterOp = func(op string) {
 			t := s.Tail(1)
 			adv := len(t) > 0 && (strings.Contains(t[0], "SPENT") || strings.Contains(t[0], "PENDING") || strings.Contains(t[0], "expect=\"duplicate"))
@@ -77,6 +82,18 @@ func c01Sequential(r *core.Run) {
 			// stickiness probe every few operations (and always after a restart)
 			if s.NOps%7 == 0 || op == "restart" {
 				c01Stickiness(r, s, sig)
+			}
+			// the same question as a client asks it, over HTTP and with the same bytes every time: the
+			// proofs the history began with, asked about before and after they are spent
+			if s.NOps%5 == 0 {
+				if len(watch) == 0 {
+					for _, c := range s.Coins {
+						if len(watch) < 6 {
+							watch = append(watch, c)
+						}
+					}
+				}
+				c01HTTPWatch(r, s, sig, watch)
 			}
 		}
 		for i := 0; i < nops && r.Violations() < 10; i++ {
@@ -131,6 +148,51 @@ func c01Stickiness(r *core.Run, s *sim.Sim, sig string) {
 		}
 		if c.State == sim.Pending && got == "UNSPENT" {
 			r.Violate("seq:locked-reported-unspent", "a proof locked in an in-flight melt is reported UNSPENT", sig, s.Tail(10))
+		}
+	}
+}
+
+// c01HTTPWatch asks POST /v1/checkstate about a fixed list of proofs with a byte-identical body; a proof
+// the model knows as SPENT must be answered SPENT each time, whatever was answered to the same bytes before.
+func c01HTTPWatch(r *core.Run, s *sim.Sim, sig string, watch []*sim.Coin) {
+	if len(watch) == 0 {
+		return
+	}
+	ys := make([]string, len(watch))
+	for i, c := range watch {
+		ys[i] = c.Y
+	}
+	for _, c := range watch {
+		if c.State == sim.Pending {
+			if mq := s.MeltQuoteByID(c.Quote); mq != nil {
+				s.AdoptTruth(mq) // the check resolves pending melts whose outcome Lightning already knows
+			}
+		}
+	}
+	body, _ := json.Marshal(map[string]any{"Ys": ys})
+	req, _ := http.NewRequest("POST", "http://mint/v1/checkstate", bytes.NewReader(body))
+	req.Header.Set("Content-Type", "application/json")
+	st, _, rb, p, hang := inproc.Serve(s.E.Handler(), req, 60*time.Second)
+	if p != "" || hang || st != 200 {
+		r.Observe("http-checkstate-unavailable", fmt.Sprintf("status %d panic=%q hang=%v", st, p, hang))
+		return
+	}
+	var resp struct {
+		States []struct {
+			Y     string `json:"Y"`
+			State string `json:"state"`
+		} `json:"states"`
+	}
+	if json.Unmarshal(rb, &resp) != nil || len(resp.States) != len(ys) {
+		r.Observe("http-checkstate-shape", truncStr(string(rb), 200))
+		return
+	}
+	s.SyncPending()
+	r.Count("http_stickiness_probes", int64(len(ys)))
+	for i, c := range watch {
+		if c.State == sim.Spent && resp.States[i].State != "SPENT" {
+			r.Violate("seq:spent-not-sticky:http", fmt.Sprintf("POST /v1/checkstate (the same request bytes as before the proof was used) reports a proof that was accepted as an input %s, not SPENT", resp.States[i].State), sig, s.Tail(10))
+			return
 		}
 	}
 }
